@@ -149,9 +149,15 @@ func recencySites(c *Ctx, rule string) {
 	strict := false
 	if fn := c.Fn("lsm", "table.Search"); fn != nil {
 		// decided by order-sign evaluation: with candidate == best > 0, is the accepting clone reachable?
-		accepts := Calls(fn, false, Named("kv.NewEntryWithCF"))
+		// the accepting exits are the returns that hand back an entry
+		var accepts []*ssa.Return
+		for _, r := range Returns(fn) {
+			if len(r.Results) >= 1 && !IsNilConst(RetVal(r, 0)) && !(fn.Recover != nil && r.Block() == fn.Recover) {
+				accepts = append(accepts, r)
+			}
+		}
 		if len(accepts) == 0 || len(fn.Params) < 3 {
-			c.Fail(rule, key(fn, "tie-policy"), fn.Pos(), 1, "cannot find the accepting path (kv.NewEntryWithCF) of table.Search")
+			c.Fail(rule, key(fn, "tie-policy"), fn.Pos(), 1, "cannot find the accepting path (a return handing back an entry) of table.Search")
 		} else {
 			mv := fn.Params[2]
 			env := &SignEnv{Depth: 2, Signs: map[string]int{"0:best": -1, "0:cand": -1, "best:cand": 0},
@@ -164,7 +170,12 @@ func recencySites(c *Ctx, rule string) {
 					}
 					return ""
 				}}
-			strict = !env.Reaches(fn, accepts[0].(ssa.Instruction))
+			strict = true
+			for _, a := range accepts {
+				if env.Reaches(fn, a) {
+					strict = false
+				}
+			}
 			c.Pass(rule, key(fn, "tie-policy"), accepts[0].Pos(), env.Visited, "a table hit replaces the running best only for a %s greater version ⇒ among equal versions the FIRST table visited wins", ifs(strict, "strictly", "non-strictly"))
 			if !strict {
 				c.Fail(rule, key(fn, "tie-policy#strict"), accepts[0].Pos(), env.Visited, "table.Search accepts an equal (non-zero) version: the last visited table wins ties, every visiting-order fact below is inverted")
